@@ -967,6 +967,10 @@ class Translator(DirectiveFactory):
 
             elif kind is SUB:
                 directives, substream = data
+                # The list belongs to the template's own stream: work on a
+                # copy so that extraction does not remove directives from
+                # the template
+                directives = list(directives)
                 in_comment = False
                 in_context = False
 
